@@ -10,7 +10,7 @@ VARIABLES phase, checks, bad, streak, passed, loop, lists, listsAfterCancel, can
           lastFail,   \* time (us) at which the fake proxy answered the last failing list call, -1 if none pending
           lastN,      \* retry count the pending back-off was computed for
           answered,   \* the in-flight request's response was uploaded completely
-          arrAfter,   \* list calls that reached the proxy after the polling context was cancelled
+          arrAfter,   \* 1 once a list call has returned to the loop (ListOK / ListFail) after the polling context was cancelled
           l
 
 \* the instance constants that vary per scenario are read from the state (cfg) by the trace actions;
@@ -74,24 +74,27 @@ TPollStop == Is("PollStop") /\ UNCHANGED xvars /\ cancelled /\ loop = "check"
         /\ UNCHANGED <<phase, checks, bad, streak, passed, lists, listsAfterCancel, cancelled, signalled, clock, req, reqAt, fwdBeforeSignal, retry, slept, exitCode>>
                /\ Step
 \* the fake proxy received a list call: not before the pending back-off delay has elapsed
-\* ... and after the cancellation of the polling context at most the one call whose context check came before it
-\* (C20: no new list call is started once the one in flight has returned - however it returned)
-TListArrive == Is("ListArrive") /\ UNCHANGED avars /\ UNCHANGED <<cfg, lastFail, lastN, answered>>
-        /\ arrAfter' = (IF cancelled THEN arrAfter + 1 ELSE arrAfter) /\ arrAfter' <= 1
+\* ... and once the call that was in flight at the cancellation has returned to the loop - however it returned -
+\* no list call reaches the proxy any more (C20).  (Several arrivals may belong to ONE call of the loop: net/http
+\* re-sends a GET whose connection was closed under it; what counts is the loop's own ListOK / ListFail.)
+TListArrive == Is("ListArrive") /\ Same
+        /\ arrAfter = 0
         /\ (lastFail >= 0 => E.t_us - lastFail >= A!Lo(lastN))
                /\ Step
 TListAnswer == Is("ListAnswer") /\ UNCHANGED avars /\ UNCHANGED <<cfg, lastN, answered, arrAfter>>
         /\ lastFail' = (IF E.ok THEN -1 ELSE E.t_us)
                /\ Step
 \* (the agent may take a list call for a success only if the proxy answered it successfully: lastFail = -1)
-TListOK == Is("ListOK") /\ UNCHANGED <<cfg, lastN, answered, arrAfter>> /\ lastFail = -1 /\ lastFail' = -1
+TListOK == Is("ListOK") /\ UNCHANGED <<cfg, lastN, answered>> /\ lastFail = -1 /\ lastFail' = -1
+        /\ arrAfter' = (IF cancelled THEN 1 ELSE arrAfter)
         /\ loop = "listing" /\ loop' = "check" /\ retry' = 0 /\ slept' = TRUE
         /\ req' = (IF E.ids # <<>> /\ req = "none" THEN "listed" ELSE req)
         /\ UNCHANGED <<phase, checks, bad, streak, passed, lists, listsAfterCancel, cancelled, signalled, clock, reqAt, fwdBeforeSignal, exitCode>>
                /\ Step
 \* a failed list call: the hook reports the loop's retry counter, which must equal the number of
 \* consecutive failures since the last success
-TListFail == Is("ListFail") /\ UNCHANGED <<cfg, lastFail, answered, arrAfter>>
+TListFail == Is("ListFail") /\ UNCHANGED <<cfg, lastFail, answered>>
+        /\ arrAfter' = (IF cancelled THEN 1 ELSE arrAfter)
         /\ loop = "listing" /\ E.retry = retry
         /\ loop' = "check" /\ retry' = retry + 1 /\ slept' = FALSE /\ lastN' = retry
         /\ UNCHANGED <<phase, checks, bad, streak, passed, lists, listsAfterCancel, cancelled, signalled, clock, req, reqAt, fwdBeforeSignal, exitCode>>
